@@ -209,8 +209,8 @@ pub fn run(ctx: &mut Ctx) {
     ctx.replay_known_and_regressions(&replay);
     let n = ctx.tier.pick(60_000, 1_000_000);
     ctx.run_prop("encode", n, || crate::gen::tape(1200).prop_map(gen_case), judge);
+    let total = ctx.cls.evaluations; // proptest cases only: the fuzz executions that follow are not classified
     crate::fuzz::run_for(ctx);
-    let total = ctx.cls.evaluations;
     for shape in ["legacy-nochain", "legacy-chain", "eip2930", "eip1559"] {
         for p in 0..2 {
             ctx.floor(&format!("{shape}/parity-{p}"), total, 0.05);
